@@ -3,7 +3,7 @@
    Model/Jar.v (request objects at /authorize, /par, /bc-authorize) and Model/Authorize.v
    (pushed requests); the predicates jar_ok, ciba_jar_ok, out_ok are the executable ones of
    Model/JarSpec.v, which the monitor of Corr/C07.v evaluates on the implementation's answers. *)
-From Verif Require Import Base Scope Types Prog Pop Token Authorize System Config Jar JarSpec C07Proofs C02Handlers C07Nav.
+From Verif Require Import Base Scope Types Prog Pop Token Authorize System Config Jar JarSpec C07Proofs C02Handlers C07Nav C07Aud.
 Local Open Scope N_scope.
 
 (* ---- jar_authentic ----
@@ -65,6 +65,49 @@ Theorem jar_authentic_ciba : forall w jx n now r st st' x o,
   ciba_jar_ok (jx_cfg jx) cid (jclient_of (jx_clients jx) cid) o = true.
 Proof. exact init_back_auth_jar_authentic. Qed.
 Print Assumptions jar_authentic_ciba.
+
+(* ---- jar_audience_is_issuer ----
+   "names ... this server as audience": the `aud` claim is a LIST of values (Model/Jar.v `audience`:
+   the issuer itself, the issuer written with a trailing slash or in another case, the token /
+   authorization / pushed-authorization / backchannel endpoint URLs, the URL of the very request, the
+   mTLS aliases of issuer, token endpoint and requested URL, the client's own identifier, anything
+   else).  For every world, store, clock and request: a request that carries a SIGNED request object
+   and is answered with a page, a code / token redirect, a request_uri or an auth_req_id had the
+   issuer ITSELF among the object's audiences - at /authorize (by value or by reference), at /par and
+   at /bc-authorize (always signed).  In particular an object whose audience is what a
+   private_key_jwt client assertion carries (the token endpoint, the requested URL) is never used. *)
+Theorem jar_audience_is_issuer :
+  (forall w jx n now q st st' x o,
+     cf_jar_enabled (w_cfg w) = true -> carries (jq_jar q) o ->
+     p_request_uri (ar_params (jq_req q)) = 0 ->
+     run_seq (init_auth_jar w jx n now q) st = (st', x) -> out_ok x = true ->
+     ro_sig o <> SigEmpty -> In AudIssuer (ro_aud o)) /\
+  (forall w jx n now r st st' x o,
+     cf_jar_enabled (w_cfg w) = true ->
+     run_seq (push_auth_jar w jx n now r (Some o)) st = (st', x) -> out_ok x = true ->
+     ro_sig o <> SigEmpty -> In AudIssuer (ro_aud o)) /\
+  (forall w jx n now r st st' x o,
+     cf_ciba_jar_enabled (w_cfg w) = true ->
+     run_seq (init_back_auth_jar w jx n now r (Some o)) st = (st', x) -> out_ok x = true ->
+     In AudIssuer (ro_aud o)).
+Proof. exact jar_audience_handlers. Qed.
+Print Assumptions jar_audience_is_issuer.
+
+(* the same at the level of the two resolvers (jarFromRequestObject, cibaJARFromRequestObject), for every
+   profile, configuration, client registration and expected client (even the empty one) *)
+Theorem jar_audience_resolver :
+  (forall prof jc cid c o j, resolve_jar prof jc cid c o = inr j -> ro_sig o <> SigEmpty -> In AudIssuer (ro_aud o)) /\
+  (forall jc cid c o j, resolve_ciba_jar jc cid c o = inr j -> In AudIssuer (ro_aud o)).
+Proof. exact jar_audience_resolvers. Qed.
+Print Assumptions jar_audience_resolver.
+
+(* the direction the deviation catalogue of suite c07obj exercises: a signed object none of whose
+   audiences is the issuer itself - however near the miss - is refused by both resolvers *)
+Theorem jar_audience_near_miss_refused : forall prof jc cid c o,
+  (forall a, In a (ro_aud o) -> a <> AudIssuer) -> ro_sig o <> SigEmpty ->
+  (exists e, resolve_jar prof jc cid c o = inl e) /\ (exists e, resolve_ciba_jar jc cid c o = inl e).
+Proof. exact near_miss_refused. Qed.
+Print Assumptions jar_audience_near_miss_refused.
 
 (* ---- jar_client_bound (decision level): the client_id inside must be the client's ---- *)
 Theorem jar_client_bound : forall cfg c outer jin j p,
